@@ -14,7 +14,7 @@ from .. import build as B
 PROPERTY = "C17"
 LEVEL = "fault_enumeration"
 VARIANTS = ["asan"]
-RULE = ("archives: file sets of <=2 (quick) / <=3 (thorough) entries over 6 names (two pairs differing in letter case only) x 6 sizes x 3 property sets (with and without trailer), plus header strings of 254..700 bytes; faults per "
+RULE = ("archives: file sets of <=2 (quick) / <=3 (thorough) entries over 8 names (two pairs differing in letter case only, two nested names repeating a top-level name) x 6 sizes x 3 property sets (with and without trailer), plus header strings of 254..700 bytes; faults per "
         "archive: every truncation length, every header/property/table byte x {00,01,7F,FF}, every size field x 6 values, missing / directory path; a case = (archive, fault); non-trivial = every faulted case and every archive with >=1 entry; distinct by case")
 ASSUMPTIONS = [
     "content bytes are arbitrary binary (all 256 byte values occur); entry names use backslash separators as in real PBOs",
@@ -26,7 +26,7 @@ ASSUMPTIONS = [
 DEADLINE_S = {"quick": 480, "thorough": 1500}
 
 SCR = os.path.join(B.BUILD, "scratch", "c17")
-NAMES = ["a.sqf", "A.sqf", "d\\b.sqf", "D\\b.sqf", "config.cpp", "n" * 200 + ".sqf"]   # incl. names that differ in letter case only
+NAMES = ["a.sqf", "A.sqf", "d\\b.sqf", "D\\b.sqf", "d\\a.sqf", "fix\\c.sqf", "config.cpp", "n" * 200 + ".sqf"]   # incl. names that differ in letter case only and nested names that repeat a top-level file / directory name
 SIZES = [0, 1, 255, 256, 257, 5000]
 PROPS = {"prefix": [("prefix", "pre\\fix")], "prefix+2": [("prefix", "x"), ("version", "1.0"), ("author", "me")], "none": []}
 # header strings around and beyond the reader's 256-byte chunk size (names, property keys, property values, the prefix)
